@@ -134,10 +134,11 @@ def run(ctx):
         ths = [1, 2, 3, 4, 7, 8, 16, 33, 64] if not ctx.quick else [1, 2, 5, 16, 64]
         big = len(recs) >= 1000
         if big:
-            ths = [8, 16, 64] if ctx.quick else [4, 8, 16, 32, 64]
+            # few threads as well: a quantity derived from the team size (work per thread, leaf size, chunk) differs most between 1 and 2 threads
+            ths = [1, 2, 8, 16, 64] if ctx.quick else [1, 2, 3, 4, 8, 16, 32, 64]
         for th in ths:
             if big:
-                for rep in range(2 if ctx.quick else 4):
+                for rep in range(1 if th <= 3 else (2 if ctx.quick else 4)):
                     variants.append((kvp, Case(recs, t, threads=th, fmt="fasta", evlog=False, jitter=0, tag="threads=%d repeat %d (large fragment set)" % (th, rep))))
                 continue
             variants.append((kvh if rng.random() < 0.5 else kvp, Case(recs, t, threads=th, fmt="fasta", evlog=True, jitter=0, tag="threads=%d" % th)))
